@@ -16,6 +16,7 @@ except Exception as e:
     meta = {"note": f"agent meta unreadable: {e}"}
 install = {
  "task_tests": "insert demo.rs before the final '}' of `mod tests` in rodbus/src/client/task.rs; run `cargo test -p rodbus --lib --offline %s`" % flt,
+ "frame_tests": "insert demo.rs before the final '}' of `mod tests` in rodbus/src/serial/frame.rs; run `cargo test -p rodbus --lib --offline %s`" % flt,
  "append_task": "append demo.rs to rodbus/src/client/task.rs; run `cargo test -p rodbus --lib --offline %s`" % flt,
  "rodbus_tests": "copy demo.rs to rodbus/tests/%s.rs; run `cargo test -p rodbus --offline --features verif-hooks --test %s`" % (flt, flt),
  "lib_mod": "copy demo.rs to rodbus/src/%s.rs and append `#[cfg(test)] mod %s;` to rodbus/src/lib.rs; run `cargo test -p rodbus --lib --offline %s`" % (flt, flt, flt),
